@@ -6,6 +6,11 @@
 (*                       XObjectPtr / double / node overloads assign m_value and empty m_expression  *)
 (*                       (the last value set is the one that counts); doTransform passes             *)
 (*                       m_expression to the processor when it is not empty, m_value otherwise       *)
+(*   m_topXObjectFactory the factory the double overload makes its XNumber with: createNumber takes   *)
+(*                       the most recently released XNumber out of the factory's cache and sets it    *)
+(*                       to the new value; an XNumber is released (its last value still in it) when   *)
+(*                       the holder's m_value is overwritten or emptied; clearStylesheetParams()      *)
+(*                       resets the factory.  numCache: the last values of the cached objects         *)
 (*   m_functions         installed external functions                                                *)
 (*   m_compiledStylesheets / m_parsedSources    owned objects                                        *)
 (*   m_errorMessage      CharVectorType, always >= 1 long.  parseSource, compileStylesheet and       *)
@@ -20,10 +25,11 @@ NoFnI == [x \in {} |-> x]
 RestrictI(f, S) == [x \in S |-> f[x]]
 
 (* emptied: ghost for the history generator - which slot the last setStylesheetParam of this name had to empty *)
-Holder0 == [expr |-> "none", value |-> "none", emptied |-> "none"]
+(* stale: what the recycled XNumber now holding the value held before ("none": a new object, or not a number)            *)
+Holder0 == [expr |-> "none", value |-> "none", emptied |-> "none", stale |-> "none"]
 MInit == [holders |-> [k \in PoolPNames |-> Holder0], functions |-> [f \in PoolFNames |-> FALSE],
           ss |-> NoFnI, nss |-> 0, src |-> NoFnI, nsrc |-> 0,
-          err |-> "", ctx |-> {},
+          err |-> "", ctx |-> {}, numCache |-> <<>>,
           (* ghosts for the history generator: an entry of m_params / m_functions was removed again, i.e. *)
           (* the maps were used and emptied - behaviourally the same as never used                        *)
           paramsCleared |-> FALSE, fnRemoved |-> FALSE]
@@ -37,11 +43,17 @@ ClearProper(err) == ""           \* clear(); push_back(0)
 Ev(m, rec) == [m |-> m, ev |-> rec @@ [errEmpty |-> (m.err = "")]]
 
 ISetParam(m, k, v) ==
+  LET old == m.holders[k].value
+      recycle == v \in PoolNumVals /\ m.numCache # <<>>                          \* createNumber(v) comes first ...
+      c1 == IF recycle THEN SubSeq(m.numCache, 1, Len(m.numCache) - 1) ELSE m.numCache
+      c2 == IF old \in PoolNumVals THEN Append(c1, old) ELSE c1 IN              \* ... then the assignment releases the old value
   Ev([m EXCEPT !.holders[k] = IF v \in PoolExprVals
-                              THEN [expr |-> v, value |-> "none", emptied |-> IF @.value # "none" THEN "value" ELSE "none"]
-                              ELSE [expr |-> "none", value |-> v, emptied |-> IF @.expr # "none" THEN "expr" ELSE "none"]],
+                              THEN [expr |-> v, value |-> "none", emptied |-> IF @.value # "none" THEN "value" ELSE "none", stale |-> "none"]
+                              ELSE [expr |-> "none", value |-> v, emptied |-> IF @.expr # "none" THEN "expr" ELSE "none",
+                                    stale |-> IF recycle THEN m.numCache[Len(m.numCache)] ELSE "none"],
+              !.numCache = c2],
      [e |-> "SetParam", k |-> k, v |-> v])
-IClearParams(m)   == Ev([m EXCEPT !.holders = [k \in PoolPNames |-> Holder0], !.paramsCleared = TRUE], [e |-> "ClearParams"])
+IClearParams(m)   == Ev([m EXCEPT !.holders = [k \in PoolPNames |-> Holder0], !.paramsCleared = TRUE, !.numCache = <<>>], [e |-> "ClearParams"])
 IInstallFn(m, f)  == Ev([m EXCEPT !.functions[f] = TRUE], [e |-> "InstallFn", f |-> f])
 IUninstallFn(m, f) == Ev([m EXCEPT !.functions[f] = FALSE, !.fnRemoved = TRUE], [e |-> "UninstallFn", f |-> f])
 
